@@ -1385,7 +1385,10 @@ Section Editor.
   (* page_completions with no pause (rows large enough): candidates in columns *)
   Definition page_completions_simple (cands : list str) : E (option cmd) :=
     let max_width := Nat.min cols (fold_left Nat.max (map layout_w cands) 0 + 2) in
+    (* cols / max_width and nbc.div_ceil(num_cols): Rust's integer division panics on a zero divisor *)
+    if Nat.eqb max_width 0 then epanic else
     let num_cols := cols / max_width in
+    if Nat.eqb num_cols 0 then epanic else
     let nbc := length cands in
     let num_rows := (nbc + num_cols - 1) / num_cols in
     let row_text (row : nat) : str :=
